@@ -509,8 +509,9 @@ fn tok_input(ctx: &mut Ctx, input: &[u8]) {
     }
 }
 
-const TOK_SYMBOLS: [char; 14] =
-    ['a', 'b', ' ', '\n', '\r', '\u{a0}', '\u{2028}', '\u{3000}', '\u{85}', 'é', '\u{301}', '\u{200d}', '\u{1F1E9}', '\0'];
+const TOK_SYMBOLS: [char; 16] = [
+    'a', 'b', ' ', '\n', '\r', '\u{a0}', '\u{2028}', '\u{3000}', '\u{85}', 'é', '\u{301}', '\u{200d}', '\u{1F1E9}', '\0', '\u{b}', '\t',
+];
 const TOK_BYTES: [u8; 14] = [b'a', b' ', b'\n', b'\r', 0xc3, 0xa9, 0xe2, 0x80, 0xa8, 0xf0, 0x9f, 0xff, 0xed, 0xa0];
 
 const WORDS: [&str; 18] = [
@@ -1197,6 +1198,22 @@ struct URender {
     writer: Option<Vec<u8>>,
 }
 
+/// an `io::Write` with `write`/`flush` only, accepting at most `max` bytes per call
+struct PlainSink {
+    buf: Vec<u8>,
+    max: usize,
+}
+impl std::io::Write for PlainSink {
+    fn write(&mut self, b: &[u8]) -> std::io::Result<usize> {
+        let k = b.len().min(self.max);
+        self.buf.extend_from_slice(&b[..k]);
+        Ok(k)
+    }
+    fn flush(&mut self) -> std::io::Result<()> {
+        Ok(())
+    }
+}
+
 /// builds the line diff (with the swap repair switched on if `repair`) and renders it both ways
 fn render_udiff<T: DiffableStr + ?Sized>(c: &UCfg, repair: bool, old: &T, new: &T) -> Option<URender> {
     let (r, _, _, _) = obs::with_world(None, repair, |_| {
@@ -1215,6 +1232,17 @@ fn render_udiff<T: DiffableStr + ?Sized>(c: &UCfg, repair: bool, old: &T, new: &
         let writer = catch_unwind(AssertUnwindSafe(|| {
             let mut w: Vec<u8> = Vec::new();
             u.to_writer(&mut w).expect("writing to a Vec cannot fail");
+            // the same through sinks that implement only `write` (no vectored writes) and that accept
+            // only a few bytes per call: every line's bytes must still arrive unchanged
+            let mut plain = PlainSink { buf: vec![], max: usize::MAX };
+            u.to_writer(&mut plain).expect("writing to a sink cannot fail");
+            let mut short = PlainSink { buf: vec![], max: 3 };
+            u.to_writer(&mut short).expect("writing to a sink cannot fail");
+            if plain.buf != w || short.buf != w {
+                // make the difference visible to the validators as a writer output that is not the Vec output
+                w = if plain.buf != w { plain.buf } else { short.buf };
+                w.extend_from_slice(b"\n<sink output differs from Vec output>");
+            }
             w
         }))
         .ok();
